@@ -60,19 +60,22 @@ View == <<routes, built>>
 SymOct == [ a |-> "a", ae |-> "a", b |-> "b",
             ue |-> "u", ul |-> "u", ur |-> "u",
             v |-> "v", we |-> "w", wl |-> "w", tr |-> "t",
-            i1 |-> "i1", i1l |-> "i1", i2 |-> "i2", rf |-> "r", e |-> "" ]
+            i1 |-> "i1", i1l |-> "i1", i2 |-> "i2", rf |-> "r", pe |-> "p", pr |-> "q", e |-> "" ]
+\* "p" is a value TEXT that itself looks percent-encoded: only unreserved characters and well-formed %XX
+\* triples ("100%25", "a%2Fb", "%41").  As a value it is data: apply must escape its '%' ("pe" = 100%2525);
+\* written verbatim ("pr") it would be read back as another text, "q" (100%).
 \* SymDec: class of the lossily decoded text - what a parameter is bound to (decode_utf8_lossy).
 SymDec == [ a |-> "a", ae |-> "a", b |-> "b",
             ue |-> "u", ul |-> "u", ur |-> "u",
             v |-> "v", we |-> "w", wl |-> "w", tr |-> "t",
-            i1 |-> "r", i1l |-> "r", i2 |-> "r", rf |-> "r", e |-> "" ]
+            i1 |-> "r", i1l |-> "r", i2 |-> "r", rf |-> "r", pe |-> "p", pr |-> "q", e |-> "" ]
 \* "ur" spells its text with characters that may not occur in a RouteUri path (non-ASCII, space,
 \* '?', '#', a lone '%' ...): the pattern parser takes it, a URI cannot contain it.
 \* "tr" is a value text that URL_ENCODE leaves as it is ('~' is "unreserved"); since f104ab0 '~' is a
 \* RouteUri path character, so it is legal (before, the URI was cut at it: finding F8e, repaired).
 UriLegalSym(s) == s # "ur"
 \* what utf8_percent_encode(_, URL_ENCODE) produces for a decoded text: the canonical legal spelling
-EncOf == [ a |-> "a", b |-> "b", u |-> "ue", v |-> "v", w |-> "we", t |-> "tr", r |-> "rf" ]
+EncOf == [ a |-> "a", b |-> "b", u |-> "ue", v |-> "v", w |-> "we", t |-> "tr", r |-> "rf", p |-> "pe" ]
 \* percent-decoded class of a raw parameter name ("xe" is a second spelling of "x")
 NameDec == [ x |-> "x", y |-> "y", xe |-> "x" ]
 \* "sr" is a scheme the pattern parser takes but RouteUri does not ('_', ' ' ...)
@@ -87,7 +90,7 @@ ASSUME DOMAIN SymOct = DOMAIN SymDec /\ \A x \in DOMAIN SymOct : (SymOct[x] = ""
 LegalForm(s) == IF UriLegalSym(s) THEN s ELSE EncOf[SymDec[s]]
 
 \* segment symbols URIs are synthesised from, and their schemes
-USyms    == {LegalForm(s) : s \in LitSyms} \cup {"v", "we", "wl", "e"}
+USyms    == {LegalForm(s) : s \in LitSyms} \cup {"v", "we", "wl", "pe", "e"}
 USchemes == {"", "s", "t"}
 
 ----------------------------------------------------------------------------
@@ -274,7 +277,7 @@ TypeOK == /\ built \in {"no", "accepted", "rejected", "parse-error"}
           /\ ~Accepted => (Len(routes) = 1 /\ routes[1] \in DupTexts)
 
 \* value assignments used for apply: by parameter position
-ValRows == {<<"v", "v", "v">>, <<"v", "w", "u">>, <<"w", "a", "v">>, <<"u", "v", "w">>, <<"t", "v", "t">>, <<"r", "v", "r">>}
+ValRows == {<<"v", "v", "v">>, <<"v", "w", "u">>, <<"w", "a", "v">>, <<"u", "v", "w">>, <<"t", "v", "t">>, <<"r", "v", "r">>, <<"p", "v", "p">>}
 RowMap(p, row) == [n \in Names(p) |-> row[((PosOf(p, n) - 1) % 3) + 1]]
 CompleteMaps(p) == {RowMap(p, row) : row \in ValRows}
 IncompleteMaps(p) == {[n \in Names(p) \ {x} |-> "v"] : x \in Names(p)}
